@@ -10,10 +10,12 @@ The signature it returns is over the canonical closing transaction spending the 
 outpoint, and afterwards the channel is marked closed.
 
 Model: `VlsModel/Model/MutualClose.lean`.  Reference predicate `CloseOK` below (unbounded arithmetic).
-The conjunct "the signed bytes are the canonical closing transaction on the funding outpoint" is about
-LDK's `ClosingTransaction` and the ECDSA signature: it is *validated* on every accepted request by the
-harness (signature verified against a transaction built from scratch), not proved here; what is proved
-about it is that phase 1 signs only when the given transaction equals the recomposed one (`canon`).
+The conjunct "the signature is over the canonical closing transaction on the funding outpoint" is proved
+structurally (`C07_canonical_close`, `canonClose_wellformed`): both entry points sign `canonClose` of the
+validated values on the channel's funding outpoint, whatever the caller supplied.  That LDK's
+`ClosingTransaction::new` renders this structure to those bytes and the ECDSA signature itself are
+*validated* on every accepted request by the harness (signature verified against a transaction built from
+scratch, whose structured rendering is compared with `canonClose`).
 -/
 namespace VlsModel.Props.C07
 open VlsModel VlsModel.Policy VlsModel.MutualClose
@@ -111,9 +113,9 @@ theorem validateMutualClose_ok (p : Policy) (s : Setup) (e : EState) (a : Args)
 /-- **C07 (main), phase 2**: `sign_mutual_close_tx_phase2` returns a signature only for a `CloseOK`
     request (filter keeps the `policy-mutual-*` tags errors).  Full strength for the modelled conjuncts:
     since fix 3751e9c the fee conjunct needs no side condition on `max_feerate_per_kw`. -/
-theorem C07_main (p : Policy) (s : Setup) (e e' : EState) (a : Args)
+theorem C07_main (p : Policy) (s : Setup) (e e' : EState) (fo : Nat) (a : Args) (tx : ClosingTx)
     (hf : NonPermissive p)
-    (h : signClose2 p s e a = .ok e') : CloseOK p s e a := by
+    (h : signClose2 p s e fo a = .ok (e', tx)) : CloseOK p s e a := by
   unfold signClose2 at h
   obtain ⟨_, h1, _⟩ := bind_ok h
   exact validateMutualClose_ok p s e a hf h1
@@ -122,18 +124,18 @@ theorem C07_main (p : Policy) (s : Setup) (e e' : EState) (a : Args)
     exempt the holder output from the wallet / allowlist test **at signing time** (`o.canSpend`,
     `o.allowlisted` are the wallet's answers when the close is requested, e.g. after the script was removed
     from the allowlist).  A model that skipped the test for the upfront script could not prove this. -/
-theorem C07_upfront_checked_at_signing (p : Policy) (s : Setup) (e e' : EState) (a : Args) (u : Nat)
-    (hf : NonPermissive p) (hu : s.upfront = some u) (hpos : 0 < a.toHolder)
-    (h : signClose2 p s e a = .ok e') :
+theorem C07_upfront_checked_at_signing (p : Policy) (s : Setup) (e e' : EState) (fo : Nat) (a : Args) (tx : ClosingTx)
+    (u : Nat) (hf : NonPermissive p) (hu : s.upfront = some u) (hpos : 0 < a.toHolder)
+    (h : signClose2 p s e fo a = .ok (e', tx)) :
     ∃ o, a.holderScript = some o ∧ o.sid = u ∧ (o.canSpend = true ∨ o.allowlisted = true) := by
-  obtain ⟨_, _, _, _, _, _, _, _, hdest, hup⟩ := C07_main p s e e' a hf h
+  obtain ⟨_, _, _, _, _, _, _, _, hdest, hup⟩ := C07_main p s e e' fo a tx hf h
   obtain ⟨o, ho, hsid⟩ := hup u hu hpos
   exact ⟨o, ho, hsid, hdest o ho⟩
 
 /-- **C07 (both entry points)**: whatever phase 1 (`decode_and_validate_mutual_close_tx`) accepts, phase 2
     (`validate_mutual_close_tx`) accepts for the chosen assignment. -/
-theorem C07_both_entry (p : Policy) (s : Setup) (e : EState) (outs : List Out) (canon : Bool) (a : Args)
-    (h : decodeAndValidate p s e outs canon = .ok a) : validateMutualClose p s e a = .ok () := by
+theorem C07_both_entry (p : Policy) (s : Setup) (e : EState) (fo : Nat) (tx : SuppliedTx) (a : Args)
+    (h : decodeAndValidate p s e fo tx = .ok a) : validateMutualClose p s e a = .ok () := by
   unfold decodeAndValidate at h
   obtain ⟨_, _, h⟩ := bind_ok h
   obtain ⟨_, _, h⟩ := bind_ok h
@@ -141,22 +143,23 @@ theorem C07_both_entry (p : Policy) (s : Setup) (e : EState) (outs : List Out) (
   obtain ⟨g, hg, h⟩ := bind_ok h
   obtain ⟨_, _, h⟩ := bind_ok h
   cases h
-  exact (chooseAssignment_ok p s e outs _ hg).1
+  exact (chooseAssignment_ok p s e tx.outs _ hg).1
 
 /-- **C07 (main), phase 1**: `sign_mutual_close_tx` returns a signature only if one of the two
     readings of the outputs is `CloseOK`, at most two outputs were given, and (filter keeping
     `policy-onchain-format-standard` an error) the transaction handed over *is* the recomposed canonical
-    closing transaction. -/
-theorem C07_main_phase1 (p : Policy) (s : Setup) (e e' : EState) (outs : List Out) (np : Nat) (canon : Bool) (a : Args)
+    closing transaction of the validated values. -/
+theorem C07_main_phase1 (p : Policy) (s : Setup) (e e' : EState) (fo : Nat) (tx : SuppliedTx) (np : Nat)
+    (a : Args) (signed : ClosingTx)
     (hf : NonPermissive p) (hfmt : errs p .onchainFormatStandard = true)
-    (h : signClose1 p s e outs np canon = .ok (e', a)) :
-    CloseOK p s e a ∧ outs.length ≤ 2 ∧ canon = true ∧
-      ∃ l u, candidates p e outs = some (l, u) ∧ (a = l ∨ a = u) := by
+    (h : signClose1 p s e fo tx np = .ok (e', a, signed)) :
+    CloseOK p s e a ∧ tx.outs.length ≤ 2 ∧ tx.render = canonClose fo a ∧
+      ∃ l u, candidates p e tx.outs = some (l, u) ∧ (a = l ∨ a = u) := by
   unfold signClose1 at h
   obtain ⟨_, _, h⟩ := bind_ok h
   obtain ⟨a', hd, h⟩ := bind_ok h
   cases h
-  have hv := C07_both_entry p s e outs canon a hd
+  have hv := C07_both_entry p s e fo tx a hd
   unfold decodeAndValidate at hd
   obtain ⟨_, f1, hd⟩ := bind_ok hd
   obtain ⟨_, _, hd⟩ := bind_ok hd
@@ -165,20 +168,122 @@ theorem C07_main_phase1 (p : Policy) (s : Setup) (e e' : EState) (outs : List Ou
   obtain ⟨_, f2, hd⟩ := bind_ok hd
   cases hd
   have f1 := of_decide_eq_false (hard_ok f1)
-  have f2 := check_ok f2 hfmt
-  refine ⟨validateMutualClose_ok p s e a hf hv, by omega, by simpa using f2, (chooseAssignment_ok p s e outs a hg).2⟩
+  have f2 := of_decide_eq_false (check_ok f2 hfmt)
+  refine ⟨validateMutualClose_ok p s e a hf hv, by omega, Classical.not_not.mp f2, (chooseAssignment_ok p s e tx.outs a hg).2⟩
+
+/-! ### the signed transaction -/
+
+/-- outputs of a transaction are in LDK's canonical order -/
+def SortedO : List TxO → Prop
+  | [] => True
+  | [_] => True
+  | x :: y :: rest => txoLe x y = true ∧ SortedO (y :: rest)
+
+theorem txoLe_total (x y : TxO) : txoLe x y = true ∨ txoLe y x = true := by
+  unfold txoLe
+  by_cases h1 : x.value < y.value
+  · simp [h1]
+  · by_cases h2 : y.value < x.value
+    · simp [h2]
+    · have : x.value = y.value := by omega
+      by_cases h3 : x.rank ≤ y.rank
+      · simp [this, h3]
+      · have : y.rank ≤ x.rank := by omega
+        simp [*]
+
+/-- the canonical closing transaction is well formed: version 2, lock time 0, final sequence, spends the
+    given outpoint, at most two outputs, none of value zero ("dust-free" in LDK's sense), sorted by value
+    then script, and the outputs carry exactly the validated values -/
+theorem canonClose_wellformed (fo : Nat) (a : Args) :
+    let t := canonClose fo a
+    t.version = 2 ∧ t.locktime = 0 ∧ t.sequence = 4294967295 ∧ t.outpoint = fo ∧
+    t.outputs.length ≤ 2 ∧ (∀ o ∈ t.outputs, 0 < o.value) ∧ SortedO t.outputs ∧
+    (t.outputs.map (·.value)).sum = a.toHolder + a.toCounterparty := by
+  intro t
+  refine ⟨rfl, rfl, rfl, rfl, ?_⟩
+  show (canonOutputs a).length ≤ 2 ∧ (∀ o ∈ canonOutputs a, 0 < o.value) ∧ SortedO (canonOutputs a) ∧
+    ((canonOutputs a).map (·.value)).sum = a.toHolder + a.toCounterparty
+  simp only [canonOutputs]
+  by_cases hc : a.toCounterparty > 0 <;> by_cases hh : a.toHolder > 0
+  · simp only [hc, hh, if_true, List.singleton_append, sortO, List.foldr, insertO]
+    have hcv : (txoOf a.toCounterparty a.cpScript).value = a.toCounterparty := by unfold txoOf; split <;> rfl
+    have hhv : (txoOf a.toHolder a.holderScript).value = a.toHolder := by unfold txoOf; split <;> rfl
+    split
+    · rename_i hle
+      refine ⟨by simp, ?_, ⟨hle, trivial⟩, by simp [hcv, hhv]; omega⟩
+      intro o ho; simp at ho; rcases ho with rfl | rfl <;> omega
+    · rename_i hle
+      have := txoLe_total (txoOf a.toCounterparty a.cpScript) (txoOf a.toHolder a.holderScript)
+      refine ⟨by simp, ?_, ⟨by simpa [hle] using this, trivial⟩, by simp [hcv, hhv]⟩
+      intro o ho; simp at ho; rcases ho with rfl | rfl <;> omega
+  · have hh0 : a.toHolder = 0 := by omega
+    have hcv : (txoOf a.toCounterparty a.cpScript).value = a.toCounterparty := by unfold txoOf; split <;> rfl
+    simp only [hc, hh, if_true, if_false, List.append_nil, sortO, List.foldr, insertO]
+    refine ⟨by simp, ?_, trivial, by simp [hcv, hh0]⟩
+    intro o ho; simp at ho; subst ho; omega
+  · have hc0 : a.toCounterparty = 0 := by omega
+    have hhv : (txoOf a.toHolder a.holderScript).value = a.toHolder := by unfold txoOf; split <;> rfl
+    simp only [hc, hh, if_true, if_false, List.nil_append, sortO, List.foldr, insertO]
+    refine ⟨by simp, ?_, trivial, by simp [hhv, hc0]⟩
+    intro o ho; simp at ho; subst ho; omega
+  · have hh0 : a.toHolder = 0 := by omega
+    have hc0 : a.toCounterparty = 0 := by omega
+    simp [sortO, SortedO, hh0, hc0]
+
+/-- **C07 (canonical close)**: whatever transaction the caller supplied, what phase 1 signs is
+    `canonClose(funding outpoint, to_holder, to_cp, holder_script, cp_script)` of the values it validated
+    (and, the format tag being an error, the supplied transaction was that very transaction); phase 2 signs
+    the same `canonClose` of the values it was given; hence both entry points sign the same transaction for
+    the same values. -/
+theorem C07_canonical_close (p : Policy) (s : Setup) (e : EState) (fo : Nat) :
+    (∀ tx np e1 a signed, signClose1 p s e fo tx np = .ok (e1, a, signed) →
+        signed = canonClose fo a ∧ (errs p .onchainFormatStandard = true → tx.render = signed)) ∧
+    (∀ a e2 signed, signClose2 p s e fo a = .ok (e2, signed) → signed = canonClose fo a) ∧
+    (∀ tx np e1 a s1 e2 s2, signClose1 p s e fo tx np = .ok (e1, a, s1) →
+        signClose2 p s e fo a = .ok (e2, s2) → s1 = s2 ∧ e1 = e2) := by
+  have k1 : ∀ tx np e1 a signed, signClose1 p s e fo tx np = .ok (e1, a, signed) →
+      signed = canonClose fo a ∧ e1 = { e with closed := true } ∧
+      (errs p .onchainFormatStandard = true → tx.render = signed) := by
+    intro tx np e1 a signed h
+    unfold signClose1 at h
+    obtain ⟨_, _, h⟩ := bind_ok h
+    obtain ⟨a', hd, h⟩ := bind_ok h
+    cases h
+    refine ⟨rfl, rfl, ?_⟩
+    intro hfmt
+    unfold decodeAndValidate at hd
+    obtain ⟨_, _, hd⟩ := bind_ok hd
+    obtain ⟨_, _, hd⟩ := bind_ok hd
+    obtain ⟨_, _, hd⟩ := bind_ok hd
+    obtain ⟨g, _, hd⟩ := bind_ok hd
+    obtain ⟨_, f2, hd⟩ := bind_ok hd
+    cases hd
+    exact Classical.not_not.mp (of_decide_eq_false (check_ok f2 hfmt))
+  have k2 : ∀ a e2 signed, signClose2 p s e fo a = .ok (e2, signed) →
+      signed = canonClose fo a ∧ e2 = { e with closed := true } := by
+    intro a e2 signed h
+    unfold signClose2 at h
+    obtain ⟨_, _, h⟩ := bind_ok h
+    cases h
+    exact ⟨rfl, rfl⟩
+  refine ⟨fun tx np e1 a signed h => ⟨(k1 tx np e1 a signed h).1, (k1 tx np e1 a signed h).2.2⟩,
+          fun a e2 signed h => (k2 a e2 signed h).1, ?_⟩
+  intro tx np e1 a s1 e2 s2 h1 h2
+  obtain ⟨r1, r2, _⟩ := k1 tx np e1 a s1 h1
+  obtain ⟨r3, r4⟩ := k2 a e2 s2 h2
+  exact ⟨by rw [r1, r3], by rw [r2, r4]⟩
 
 /-- **C07 (closed)**: after either entry point returned a signature the channel is marked closed (and
     nothing else of the enforcement state changed). -/
-theorem C07_closed (p : Policy) (s : Setup) (e e' : EState) :
-    (∀ a, signClose2 p s e a = .ok e' → e' = { e with closed := true }) ∧
-    (∀ outs np canon a, signClose1 p s e outs np canon = .ok (e', a) → e' = { e with closed := true }) := by
+theorem C07_closed (p : Policy) (s : Setup) (e e' : EState) (fo : Nat) :
+    (∀ a tx, signClose2 p s e fo a = .ok (e', tx) → e' = { e with closed := true }) ∧
+    (∀ tx np a signed, signClose1 p s e fo tx np = .ok (e', a, signed) → e' = { e with closed := true }) := by
   constructor
-  · intro a h
+  · intro a tx h
     unfold signClose2 at h
     obtain ⟨_, _, h⟩ := bind_ok h
     cases h; rfl
-  · intro outs np canon a h
+  · intro tx np a signed h
     unfold signClose1 at h
     obtain ⟨_, _, h⟩ := bind_ok h
     obtain ⟨_, _, h⟩ := bind_ok h
@@ -210,7 +315,7 @@ def sentinelState : EState :=
 
 /-- … it is now refused with the fee-range class. -/
 theorem C07_sentinel_refused :
-    signClose2 sentinelPolicy sentinelSetup sentinelState ⟨0, 0, none, none⟩ = .error .fee := by
+    signClose2 sentinelPolicy sentinelSetup sentinelState 1 ⟨0, 0, none, none⟩ = .error .fee := by
   rfl
 
 /-! ### hypotheses satisfiable, theorems not vacuous -/
@@ -218,28 +323,67 @@ theorem C07_sentinel_refused :
 def testnetPolicy : Policy := { Gen.Policy.defaultTestnet with onchain := false }
 def mainnetPolicy : Policy := { Gen.Policy.defaultMainnet with onchain := false }
 
-/-- the default filter generated from the source keeps the mutual-close tags (all tags) errors -/
-example : NonPermissive testnetPolicy ∧ errs testnetPolicy .onchainFormatStandard = true := ⟨by intro t _; rfl, rfl⟩
-example : NonPermissive mainnetPolicy ∧ errs mainnetPolicy .onchainFormatStandard = true := ⟨by intro t _; rfl, rfl⟩
+/-! #### the filter hypothesis, discharged for the generated default policies (see Props/C05 for the idea) -/
+
+/-- the tags the model relies on are exactly the `policy_err!` tags of `validate_mutual_close_tx` /
+    `decode_and_validate_mutual_close_tx` in the source -/
+theorem C07_gen_tags_covered :
+    (∀ s ∈ Gen.Policy.mutualPathTags, s ∈ mutualTags.map Tag.name) ∧
+    (∀ t ∈ mutualTags, t.name ∈ Gen.Policy.mutualPathTags) ∧
+    Gen.Policy.mutualPhase1PathTags = [Tag.mutualOther.name, Tag.onchainFormatStandard.name] := by
+  decide +kernel
+
+/-- **the default filter of both networks is strict** on every tag of the mutual-close paths -/
+theorem C07_default_filter_strict :
+    ∀ s ∈ Gen.Policy.mutualPathTags ++ Gen.Policy.mutualPhase1PathTags,
+      filterEval Gen.Policy.defaultMainnet.filter s = .error ∧ filterEval Gen.Policy.defaultTestnet.filter s = .error := by
+  decide +kernel
+
+/-- hence the hypotheses of `C07_main` / `C07_main_phase1` hold for the generated default policies -/
+theorem C07_default_nonpermissive :
+    (NonPermissive testnetPolicy ∧ errs testnetPolicy .onchainFormatStandard = true) ∧
+    (NonPermissive mainnetPolicy ∧ errs mainnetPolicy .onchainFormatStandard = true) := by
+  have key : ∀ t : Tag, t.name ∈ Gen.Policy.mutualPathTags ++ Gen.Policy.mutualPhase1PathTags →
+      errs testnetPolicy t = true ∧ errs mainnetPolicy t = true := by
+    intro t ht
+    obtain ⟨h1, h2⟩ := C07_default_filter_strict t.name ht
+    constructor
+    · show (filterEval Gen.Policy.defaultTestnet.filter t.name == .error) = true
+      rw [h2]; rfl
+    · show (filterEval Gen.Policy.defaultMainnet.filter t.name == .error) = true
+      rw [h1]; rfl
+  have hm : ∀ t ∈ mutualTags, t.name ∈ Gen.Policy.mutualPathTags ++ Gen.Policy.mutualPhase1PathTags := by
+    intro t ht
+    exact List.mem_append.mpr (Or.inl (C07_gen_tags_covered.2.1 t ht))
+  have hfmt : Tag.onchainFormatStandard.name ∈ Gen.Policy.mutualPathTags ++ Gen.Policy.mutualPhase1PathTags := by
+    decide +kernel
+  exact ⟨⟨fun t ht => (key t (hm t ht)).1, (key _ hfmt).1⟩, ⟨fun t ht => (key t (hm t ht)).2, (key _ hfmt).2⟩⟩
+
 
 def exSetup : Setup := ⟨true, 3000000, 0, 6, 7, .staticRemoteKey, none, false, false⟩
 def exState : EState :=
   { EState.init with curHolderInfo := some ⟨false, 1999000, 1000000, [], [], 0⟩,
                      curCpInfo := some ⟨true, 1000000, 1999000, [], [], 0⟩, nextHolder := 2, nextCp := 2, nextRevoke := 1 }
-def exHolderOut : Out := ⟨1998000, 3, 22, true, false⟩
-def exCpOut : Out := ⟨1000000, 20, 22, false, false⟩
+def exHolderOut : Out := ⟨1998000, 3, 22, 5, true, false⟩
+def exCpOut : Out := ⟨1000000, 20, 22, 9, false, false⟩
+def exTx : ClosingTx := ⟨2, 0, 4294967295, 1, [⟨1000000, 20, 9⟩, ⟨1998000, 3, 5⟩]⟩
 
 /-- a non-trivial signed close through phase 2 … -/
-example : signClose2 testnetPolicy exSetup exState ⟨1998000, 1000000, some exHolderOut, some exCpOut⟩
-    = .ok { exState with closed := true } := by rfl
-/-- … and through phase 1 (outputs in canonical order: counterparty first), same reading chosen -/
-example : signClose1 testnetPolicy exSetup exState [exCpOut, exHolderOut] 2 true
-    = .ok ({ exState with closed := true }, ⟨1998000, 1000000, some exHolderOut, some exCpOut⟩) := by rfl
+example : signClose2 testnetPolicy exSetup exState 1 ⟨1998000, 1000000, some exHolderOut, some exCpOut⟩
+    = .ok ({ exState with closed := true }, exTx) := by rfl
+/-- … and through phase 1 (outputs in canonical order: counterparty first), same reading chosen, same
+    transaction signed -/
+example : signClose1 testnetPolicy exSetup exState 1 ⟨2, 0, 4294967295, 1, [exCpOut, exHolderOut]⟩ 2
+    = .ok ({ exState with closed := true }, ⟨1998000, 1000000, some exHolderOut, some exCpOut⟩, exTx) := by rfl
+/-- the same outputs in the other order, a non-zero lock time, or another outpoint: refused (format) -/
+example : signClose1 testnetPolicy exSetup exState 1 ⟨2, 0, 4294967295, 1, [exHolderOut, exCpOut]⟩ 2 = .error .format := by rfl
+example : signClose1 testnetPolicy exSetup exState 1 ⟨2, 1, 4294967295, 1, [exCpOut, exHolderOut]⟩ 2 = .error .format := by rfl
+example : signClose1 testnetPolicy exSetup exState 1 ⟨2, 0, 4294967295, 7, [exCpOut, exHolderOut]⟩ 2 = .error .format := by rfl
 /-- the same close to a script that is neither wallet nor allowlisted is refused -/
-example : signClose2 testnetPolicy exSetup exState ⟨1998000, 1000000, some { exHolderOut with canSpend := false }, some exCpOut⟩
+example : signClose2 testnetPolicy exSetup exState 1 ⟨1998000, 1000000, some { exHolderOut with canSpend := false }, some exCpOut⟩
     = .error .dest := by rfl
 /-- paying the counterparty ε+1 more than its balance is refused -/
-example : signClose2 testnetPolicy exSetup exState ⟨1987999, 1010001, some exHolderOut, some { exCpOut with value := 1010001 }⟩
+example : signClose2 testnetPolicy exSetup exState 1 ⟨1987999, 1010001, some exHolderOut, some { exCpOut with value := 1010001 }⟩
     = .error .value := by rfl
 
 end VlsModel.Props.C07
